@@ -1,5 +1,6 @@
 import PallasVerif.Gen.PanicSitesC33
 import PallasVerif.Proofs.ValueTotal
+import PallasVerif.Proofs.Value
 import PallasVerif.Model.ExUnits
 import PallasVerif.Model.FeeSize
 import PallasVerif.Model.Witness
@@ -13,7 +14,7 @@ The property is a statement about ~6 kLoC of Rust (five era validators and `util
 * for every rule that has a Lean model (the models of C34–C37 and C39 re-transcribed to the code as it stands after the
   C33 `fix:` commits, plus `Model/PhaseOneArith.lean` for the leftover arithmetic) the verdict is never `panic`, for
   all inputs in the ranges of the Rust types: `exunits_total`, `min_fee_total`, `fee_and_size_total`,
-  `collateral_total`, `min_lovelace_total`, `deposits_total`, `mir_total`, `preservation_total`,
+  `collateral_total`, `lovelace_diff_total`, `collateral_balance_total`, `collateral_alonzo_total`, `min_lovelace_total`, `deposits_total`, `mir_total`, `preservation_total`,
   `preservation_total_shelleyMA`, `preservation_total_conway`, `byron_fees_total`, `witness_total`,
   `witness_total_shelley`, `validate_txs_total`; and `validate_total`: a validator assembled from these rules in any
   order with first-failure semantics never panics;
@@ -114,6 +115,169 @@ theorem mir_total (pot : Nat) (amounts : List Nat) : PhaseOneArith.mirWithinPot 
   unfold PhaseOneArith.mirWithinPot; split
   · simp
   · split <;> simp
+
+/-! ## Collateral balance (`lovelace_diff_or_fail`, `check_collaterals_assets`) -/
+
+section collateral
+open PhaseOneArith
+
+/-- the subtraction panics exactly when the guard `f >= s` is missing -/
+theorem subU64_panics_iff (f s : Int) : subU64 f s = .panic ↔ f < s := by
+  unfold subU64; split <;> simp_all
+
+/-- **`lovelace_diff_or_fail` / `conway_lovelace_diff_or_fail` never panic**: every arm that subtracts does so under `f >= s` -/
+theorem lovelace_diff_total (a b : Value.Value) : lovelaceDiffOrFail a b ≠ .panic := by
+  intro h
+  cases a <;> cases b <;> simp only [lovelaceDiffOrFail] at h
+  · split at h
+    · rename_i hg; exact absurd ((subU64_panics_iff _ _).mp h) (by omega)
+    · cases h
+  · cases h
+  · split at h
+    · rename_i hg; exact absurd ((subU64_panics_iff _ _).mp h) (by omega)
+    · cases h
+  · split at h
+    · rename_i hg; exact absurd ((subU64_panics_iff _ _).mp h) (by omega)
+    · cases h
+
+/-- the balance is at most what the collateral inputs hold -/
+theorem lovelace_diff_le (a b : Value.Value) (d : Int) (h : lovelaceDiffOrFail a b = .ok d) (hb : 0 ≤ coinV b) : d ≤ coinV a := by
+  have key : ∀ f s : Int, subU64 f s = .ok d → 0 ≤ s → d ≤ f := by
+    intro f s hs h0; unfold subU64 at hs; split at hs
+    · cases hs
+    · simp only [Value.R.ok.injEq] at hs; omega
+  cases a <;> cases b <;> simp only [lovelaceDiffOrFail] at h <;> simp only [coinV] at *
+  · split at h
+    · exact key _ _ h hb
+    · cases h
+  · cases h
+  · split at h
+    · exact key _ _ h hb
+    · cases h
+  · split at h
+    · exact key _ _ h hb
+    · cases h
+
+theorem addLovelace_le (a b c : Int) (h : Value.addLovelace a b = .ok c) : c ≤ Value.U64_MAX := by
+  unfold Value.addLovelace at h; split at h
+  · cases h
+  · simp only [Value.R.ok.injEq] at h; omega
+
+theorem addValues_coin_le (a b c : Value.Value) (h : Value.addValues a b = .ok c) : coinV c ≤ Value.U64_MAX := by
+  cases a <;> cases b <;> simp only [Value.addValues, Value.R.map_ok, Value.R.bind_ok] at h
+  · obtain ⟨x, hx, rfl⟩ := h; exact addLovelace_le _ _ _ hx
+  · obtain ⟨x, hx, rfl⟩ := h; exact addLovelace_le _ _ _ hx
+  · obtain ⟨x, hx, rfl⟩ := h; exact addLovelace_le _ _ _ hx
+  · obtain ⟨x, hx, _, _, _, _, _, _, _, _, rfl⟩ := h; exact addLovelace_le _ _ _ hx
+
+theorem conwayAddValues_coin_le (a b c : Value.Value) (h : Value.conwayAddValues a b = .ok c) : coinV c ≤ Value.U64_MAX := by
+  cases a <;> cases b <;> simp only [Value.conwayAddValues, Value.R.map_ok, Value.R.bind_ok] at h
+  · obtain ⟨x, hx, rfl⟩ := h; exact addLovelace_le _ _ _ hx
+  · obtain ⟨x, hx, rfl⟩ := h; exact addLovelace_le _ _ _ hx
+  · obtain ⟨x, hx, rfl⟩ := h; exact addLovelace_le _ _ _ hx
+  · obtain ⟨x, hx, _, _, _, _, rfl⟩ := h; exact addLovelace_le _ _ _ hx
+
+theorem sumFrom_coin_le : ∀ (vs : List Value.Value) (acc r : Value.Value), Value.sumFrom acc vs = .ok r →
+    coinV acc ≤ Value.U64_MAX → coinV r ≤ Value.U64_MAX := by
+  intro vs
+  induction vs with
+  | nil => intro acc r h ha; simp only [Value.sumFrom, Value.R.ok.injEq] at h; subst h; exact ha
+  | cons v rest ih =>
+    intro acc r h _
+    simp only [Value.sumFrom, Value.R.bind_ok] at h
+    obtain ⟨acc', h1, h2⟩ := h
+    exact ih acc' r h2 (addValues_coin_le _ _ _ h1)
+
+theorem conwaySumFrom_coin_le : ∀ (vs : List Value.Value) (acc r : Value.Value), Value.conwaySumFrom acc vs = .ok r →
+    coinV acc ≤ Value.U64_MAX → coinV r ≤ Value.U64_MAX := by
+  intro vs
+  induction vs with
+  | nil => intro acc r h ha; simp only [Value.conwaySumFrom, Value.R.ok.injEq] at h; subst h; exact ha
+  | cons v rest ih =>
+    intro acc r h _
+    simp only [Value.conwaySumFrom, Value.R.bind_ok] at h
+    obtain ⟨acc', h1, h2⟩ := h
+    exact ih acc' r h2 (conwayAddValues_coin_le _ _ _ h1)
+
+theorem returnValue_coin (conway legacy : Bool) (ret : Option Value.Value) (hret : ∀ r, ret = some r → 0 ≤ coinV r) :
+    0 ≤ coinV (returnValue conway legacy ret) := by
+  cases ret with
+  | none => simp [returnValue, coinV]
+  | some r =>
+    have := hret r rfl
+    cases r <;> simp only [returnValue]
+    · exact this
+    · split <;> exact this
+
+/-- **Babbage / Conway `check_collaterals_assets` never panics** for collateral inputs and a collateral return in the range
+    of `u64`, a fee in `u64`, a percentage in `u32`, and (Conway) a non-empty collateral list, which `check_collaterals_number`
+    has established before. The proof uses `lovelace_diff_total`, i.e. exactly the `f >= s` guard of each arm. -/
+theorem collateral_balance_total (conway legacy : Bool) (ins : List Value.Value) (ret : Option Value.Value)
+    (fee pct : Nat) (total : Option Nat) (hne : conway = true → ins ≠ [])
+    (hins : ∀ v ∈ ins, coinV v ≤ Value.U64_MAX) (hret : ∀ r, ret = some r → 0 ≤ coinV r)
+    (hf : fee ≤ U64_MAX) (hc : pct ≤ U32_MAX) :
+    collateralBalance conway legacy ins ret fee pct total ≠ .panic := by
+  have hsum : collateralSum conway ins ≠ .panic ∧ ∀ input, collateralSum conway ins = .ok input → coinV input ≤ Value.U64_MAX := by
+    unfold collateralSum
+    cases conway with
+    | false =>
+      simp only [Bool.false_eq_true, if_false]
+      exact ⟨Value.sumFrom_np _ _, fun input h => sumFrom_coin_le _ _ _ h (by simp [Value.emptyValue, coinV, Value.U64_MAX])⟩
+    | true =>
+      simp only [if_true]
+      cases ins with
+      | nil => exact absurd rfl (hne rfl)
+      | cons i is =>
+        exact ⟨Value.conwaySumFrom_np _ _, fun input h => conwaySumFrom_coin_le _ _ _ h (hins i (by simp))⟩
+  unfold collateralBalance
+  obtain ⟨hnp, hle⟩ := hsum
+  split
+  · rename_i h; exact absurd h hnp
+  · simp
+  · rename_i input hin
+    split
+    · rename_i h; exact absurd h (lovelace_diff_total _ _)
+    · simp
+    · rename_i paid hp
+      have hpaid : paid ≤ Value.U64_MAX := Int.le_trans (lovelace_diff_le _ _ _ hp (returnValue_coin _ _ _ hret)) (hle input hin)
+      have hnat : paid.toNat ≤ U64_MAX := by simp only [Value.U64_MAX, U64_MAX] at *; omega
+      split
+      · rename_i h; exact absurd h (collateral_total _ _ _ hnat hf hc)
+      · simp
+      · split
+        · split <;> simp
+        · simp
+
+/-- **Alonzo `check_collaterals_assets` never panics** (products in `u128`) -/
+theorem collateral_alonzo_total (fee pct : Nat) (hf : fee ≤ U64_MAX) (hc : pct ≤ U32_MAX) :
+    ∀ ins : List Value.Value, (∀ v ∈ ins, coinV v ≤ Value.U64_MAX) → collateralAlonzo fee pct ins ≠ .panic := by
+  intro ins
+  induction ins with
+  | nil => intro _; simp [collateralAlonzo]
+  | cons v rest ih =>
+    intro h
+    have hv := h v (by simp)
+    have hnat : (coinV v).toNat ≤ U64_MAX := by simp only [Value.U64_MAX, U64_MAX] at *; omega
+    unfold collateralAlonzo
+    split
+    · rename_i hp; exact absurd hp (collateral_total _ _ _ hnat hf hc)
+    · simp
+    · split
+      · simp
+      · exact ih (fun w hw => h w (List.mem_cons_of_mem _ hw))
+
+-- non-vacuity: the arms, and what the missing guard would do
+example : lovelaceDiffOrFail (.multi 7 [("p", [("a", 3)])]) (.multi 5 [("p", [("a", 3)])]) = .ok 2 := by decide
+example : lovelaceDiffOrFail (.multi 5 [("p", [("a", 3)])]) (.multi 7 [("p", [("a", 3)])]) = .err := by decide
+example : lovelaceDiffOrFail (.multi 7 [("p", [("a", 3)])]) (.multi 5 [("p", [("a", 4)])]) = .err := by decide
+example : lovelaceDiffOrFail (.multi 7 []) (.coin 7) = .ok 0 := by decide
+example : lovelaceDiffOrFail (.coin 7) (.multi 1 []) = .err := by decide
+example : subU64 5 7 = .panic := by decide
+example : collateralBalance true false [.multi 5000000 [("p", [("a", 3)])]] (some (.multi 7000000 [("p", [("a", 3)])])) 200000 150 none = .nonLovelace := by decide
+example : collateralBalance false false [.coin 5000000, .coin 1] (some (.coin 4000000)) 200000 150 (some 1000001) = .ok := by decide
+example : collateralBalance false false [.coin 5000000] none 200000 150 (some 1) = .annotation := by decide
+example : collateralAlonzo 200000 150 [.coin 300000, .multi 300000 [("p", [("a", 1)])]] = .nonLovelace := by decide
+end collateral
 
 /-! ## Preservation of value, Byron fees -/
 
@@ -364,6 +528,8 @@ def ofEx : ExUnits.Res → Verdict
   | .ok => .ok | .panic => .panic | _ => .rejected
 def ofArith : PhaseOneArith.Res → Verdict
   | .ok => .ok | .panic => .panic | .rejected => .rejected
+def ofColl : PhaseOneArith.CollRes → Verdict
+  | .ok => .ok | .panic => .panic | _ => .rejected
 def ofWit : Witness.R Unit → Verdict
   | .ok () => .ok | .panic => .panic | .err _ => .rejected
 
@@ -376,7 +542,11 @@ structure TxView (H : Type) where
   minfeeA : Nat
   minfeeB : Nat
   maxSize : Nat
-  paidCollateral : Nat
+  alonzoEra : Bool                      -- Alonzo: per-input collateral rule; Babbage / Conway: the balance
+  collateralIns : List Value.Value     -- values of the collateral inputs' UTxO entries
+  collateralReturn : Option Value.Value
+  legacyReturn : Bool
+  totalCollateral : Option Nat
   collateralPercentage : Nat
   outputs : List (Nat × Nat)          -- (lovelace, value size in words) of each output
   coinsPerUnit : Nat
@@ -398,7 +568,9 @@ structure InRange {H : Type} (v : TxView H) : Prop where
   a : v.minfeeA ≤ FeeSize.U32_MAX
   b : v.minfeeB ≤ FeeSize.U32_MAX
   fee : v.fee ≤ PhaseOneArith.U64_MAX
-  paid : v.paidCollateral ≤ PhaseOneArith.U64_MAX
+  collIns : ∀ x ∈ v.collateralIns, PhaseOneArith.coinV x ≤ Value.U64_MAX
+  collRet : ∀ r, v.collateralReturn = some r → 0 ≤ PhaseOneArith.coinV r
+  collNonEmpty : v.conway = true → v.collateralIns ≠ []      -- `check_collaterals_number` runs first
   pct : v.collateralPercentage ≤ PhaseOneArith.U32_MAX
   coins : v.coinsPerUnit ≤ PhaseOneArith.U32_MAX
   words : ∀ o ∈ v.outputs, o.2 + v.overhead ≤ 2147483648
@@ -408,7 +580,8 @@ structure InRange {H : Type} (v : TxView H) : Prop where
 def modelledRules {H : Type} [DecidableEq H] (hash : Witness.Bytes → H) (verify : Witness.Bytes → Witness.Bytes → Witness.Bytes → Bool)
     (v : TxView H) : List Verdict :=
   [ ofFee (FeeSize.checkMinFee v.fee v.minfeeA v.minfeeB (FeeSize.validatorSize v.parts)),
-    ofArith (PhaseOneArith.collateralEnough v.paidCollateral v.fee v.collateralPercentage),
+    ofColl (if v.alonzoEra then PhaseOneArith.collateralAlonzo v.fee v.collateralPercentage v.collateralIns
+            else PhaseOneArith.collateralBalance v.conway v.legacyReturn v.collateralIns v.collateralReturn v.fee v.collateralPercentage v.totalCollateral),
     ofValue (if v.conway then Value.checkPreservationConway v.spent v.produced v.fee v.mint
              else Value.checkPreservation v.spent v.produced v.fee v.mint) ]
   ++ v.outputs.map (fun o => ofArith (PhaseOneArith.checkMinLovelace o.1 v.coinsPerUnit o.2 v.overhead))
@@ -431,8 +604,14 @@ theorem validate_total {H : Type} [DecidableEq H] (hash : Witness.Bytes → H)
   rcases hx with ((rfl | rfl | rfl) | ⟨o, ho, rfl⟩) | (rfl | rfl | rfl)
   · have := min_fee_total v.fee v.minfeeA v.minfeeB _ hr.a hr.b hsz
     cases h : FeeSize.checkMinFee v.fee v.minfeeA v.minfeeB (FeeSize.validatorSize v.parts) <;> simp_all [ofFee]
-  · have := collateral_total v.paidCollateral v.fee v.collateralPercentage hr.paid hr.fee hr.pct
-    cases h : PhaseOneArith.collateralEnough v.paidCollateral v.fee v.collateralPercentage <;> simp_all [ofArith]
+  · cases ha : v.alonzoEra
+    · have := collateral_balance_total v.conway v.legacyReturn v.collateralIns v.collateralReturn v.fee v.collateralPercentage
+        v.totalCollateral hr.collNonEmpty hr.collIns hr.collRet hr.fee hr.pct
+      simp only [Bool.false_eq_true, if_false]
+      cases h : PhaseOneArith.collateralBalance v.conway v.legacyReturn v.collateralIns v.collateralReturn v.fee v.collateralPercentage v.totalCollateral <;> simp_all [ofColl]
+    · have := collateral_alonzo_total v.fee v.collateralPercentage hr.fee hr.pct v.collateralIns hr.collIns
+      simp only [if_true]
+      cases h : PhaseOneArith.collateralAlonzo v.fee v.collateralPercentage v.collateralIns <;> simp_all [ofColl]
   · cases hc : v.conway
     · have := preservation_total v.spent v.produced v.fee v.mint
       simp only [Bool.false_eq_true, if_false]
